@@ -57,7 +57,7 @@ PlanSharp ==
     /\ c.a <= c.b => ~IsPlan(c.a, c.b, Plan(c.a, c.b + 1)) /\ ~IsPlan(c.a, c.b, Plan(c.a + 1, c.b))
     /\ c.a <= c.b => ~IsPlan(c.a, c.b + 1, Plan(c.a, c.b))
     /\ (c.b - c.a + 1 > MaxResp) => ~IsPlan(c.a, c.b, <<[s |-> c.a, m |-> c.b - c.a + 1]>>)
-    /\ \A rs \in {Plan(c.a, c.b + 1), Plan(c.a + 1, c.b)} : (PlanDefect(c.a, c.b, rs) = "none") <=> IsPlan(c.a, c.b, rs)
+    /\ c.a <= c.b => PlanDefect(c.a, c.b, Plan(c.a + 1, c.b)) = "height-not-covered"
 
 NV(cs) == [par |-> cs.par, K |-> SFKnown(cs.par, cs.fin), best |-> cs.best, J |-> {}]
 
